@@ -2,6 +2,7 @@ SPECIFICATION Spec
 CONSTANTS
   Paths = {"f", "g", "d/h"}
   Vals = {"v2", "v3"}
+  OpKinds = {"create", "write", "patch_add", "patch_upd", "patch_del", "raw", "patch_move", "rewind"}
   MaxOps = 4
 VIEW View
 INVARIANTS Emit RewindExact FailedRewindNoop AutoCovers
